@@ -412,7 +412,7 @@ ASSUMPTIONS = [
 PROBES = ["params_rewritten_in_place", "fresh_params_dict_compared", "overlap_ops", "baton_switches", "faults_fired_while_others_in_flight", "permuted_compared",
           "identical_twin_compared", "other_phase_fraction_changed_compared", "bulk_reorder_compared",
           "snapshots_compared"]
-RUN_TIMEOUT_S = 300
+RUN_TIMEOUT_S = 420
 
 
 def warmup():
